@@ -72,7 +72,15 @@ def generate(ctx):
     # --- cab.corrupt
     for (name, cab, layout, members) in make_cabs(rng, ctx.tier):
         exp = [digest(m[1]) for m in members]
-        base = ["new cab", "open i0 x.cab"] + [f"extract i0 h0 {k} o{k}" for k in range(len(members))] + ["close i0 h0", "destroy i0"]
+        tail = ["open i0 x.cab"] + [f"extract i0 h0 {k} o{k}" for k in range(len(members))] + ["close i0 h0", "destroy i0"]
+        base = ["new cab"] + tail
+        # strict mode, said in each way the API allows: by default, with the other parameters set (in either order
+        # relative to SALVAGE 0), after salvage mode was switched on and off again
+        def strict_prefix():
+            n = rng.choice([4, 5, 64, 4096, 4097, 65536])
+            return rng.choice([[], [], [f"param i0 DECOMPBUF {n}"], ["param i0 SALVAGE 0", f"param i0 DECOMPBUF {n}"], [f"param i0 DECOMPBUF {n}", "param i0 SALVAGE 0"],
+                               ["param i0 SALVAGE 0", "param i0 FIXMSZIP 0", f"param i0 SEARCHBUF {rng.choice([4, 4096, 65536])}"],
+                               ["param i0 SALVAGE 1", "param i0 SALVAGE 0"]])
         yield [f"file x.cab {cab.hex()}"] + base, dict(family="cab.corrupt", variant="original", cab=name, expect=exp, altered=False)
         res = layout["data_res"]
         for bi, (off, plen) in enumerate(layout["blocks"][0]):
@@ -89,8 +97,9 @@ def generate(ctx):
                     vals = set(rng.sample(sorted(vals), min(2, len(vals))))
                 for v in sorted(vals):
                     c2 = cab[:pos] + bytes([v]) + cab[pos + 1:]
-                    yield [f"file x.cab {c2.hex()}"] + base, dict(family="cab.corrupt", variant=what, cab=name, block=bi,
-                                                                   pos=pos, value=v, expect=exp, altered=True)
+                    pre = strict_prefix()
+                    yield [f"file x.cab {c2.hex()}", "new cab"] + pre + tail, dict(family="cab.corrupt", variant=what, cab=name, block=bi,
+                                                                                  pos=pos, value=v, expect=exp, altered=True, params=pre)
     # --- oab.corrupt
     yield from oab_cases(ctx)
 
